@@ -291,9 +291,6 @@ impl V {
                     let Ty::Tup(_, fs) = &v else { continue };
                     for (l, p) in pfs {
                         if let Some((_, t)) = fs.iter().find(|f| f.0.as_ref() == Some(l)) {
-                            if t.contains_nil() && p.is_none() {
-                                return Err("partial pattern binds a field that may be nil (open finding F25 family: star / partial binder of a nil field)".into());
-                            }
                             if t.variants().len() >= 2 && !matches!(p, None | Some(Pat::Bind(_)) | Some(Pat::Wild) | Some(Pat::Lit(_)) | Some(Pat::Str(_)) | Some(Pat::Pin(_))) {
                                 return Err("sub-pattern narrows a union-typed FIELD (open finding: narrowed tuple id)".into());
                             }
@@ -322,11 +319,6 @@ impl V {
             Pat::Star(_) => {
                 if ty.variants().len() != 1 {
                     return Err("star pattern on a union".into());
-                }
-                if let Ty::Tup(_, fs) = ty {
-                    if fs.iter().any(|(l, t)| l.is_some() && t.contains_nil()) {
-                        return Err("star pattern binds a field that may be nil (open finding F25 family: star / partial binder of a nil field)".into());
-                    }
                 }
                 if let Some(b) = pat_binds(pat, ty) {
                     for (x, t) in b {
@@ -385,9 +377,6 @@ impl V {
         }
         if non_type_alt_inside_partial(pat, false) {
             return Err("alternation of non-types inside a partial pattern (does not parse: a partial pattern's field takes a type union)".into());
-        }
-        if alt_of_structured(pat) {
-            return Err("alternation whose alternatives are tuple patterns with fields (open finding)".into());
         }
         let mut seen = vec![];
         self.check_sub(env, pat, ty, &mut seen, false)?;
